@@ -1104,6 +1104,15 @@ namespace Pistache::Http
         allSteps[2] = std::make_unique<BodyStep>(&response);
     }
 
+    void Private::ParserImpl<Http::Response>::reset()
+    {
+        ParserBase::reset();
+
+        // like the request parser: nothing of the previous response (headers and
+        // body of one that failed half-way included) may be seen by the next one
+        response = Response();
+    }
+
     void Handler::onInput(const char* buffer, size_t len,
                           const std::shared_ptr<Tcp::Peer>& peer)
     {
